@@ -14,6 +14,27 @@ ID = 'C16'
 TITLE = 'Renames never change formula results'
 PROPS = ['Props/C16']
 
+def regenerate(ctx):
+  """coq/gen/Renames_gen.v from the current useractions.py / gencode.py, and the AST pins of the untranslated glue."""
+  import os
+  from harness import c16v
+  try:
+    text = c16v.generate(core.GRIST)
+  except c16v.Untranslatable as e:
+    raise core.TieBroken('the rename code is outside the translated subset: %s' % e)
+  os.makedirs(os.path.join(core.COQ, 'gen'), exist_ok=True)
+  core.write_if_changed(os.path.join(core.COQ, 'gen', 'Renames_gen.v'), text.replace(core.GRIST, '<grist>'))
+  ctx.extra['regenerated'] = ['UserActions._prepare_formula_renames', 'GenCode.grist_names',
+                              'UserActions._adjust_one_column_update.add',
+                              'UserActions._updateTableRecords: table_renames',
+                              'UserActions._updateColumnRecords: formula merge']
+  changed = c16v.check_pins(core.GRIST)
+  ctx.extra['pinned'] = sum(len(v) for v in c16v.PINNED.values())
+  if changed:
+    raise core.TieBroken('pinned code changed (normalised AST differs from the text the model was written against): '
+                         + ', '.join(changed))
+
+
 # table ids that do not collide with a name exported by `functions` (a table named T, N, SUM ... is a known root cause)
 SAFE_TABLES = ['Tt', 'Foo', 'Bar baz', 'People', 'items', 'R2', 'Table1']
 CLASH_TABLES = ['T', 'N', 'Foo', 'People']
@@ -775,6 +796,20 @@ Definition cT (old : text) (rep : list occ) (rt : list (name * name)) (rc : list
 Definition cP (f : expr) (t : text) := (f, t).
 Definition cE (d : doc) (self : name) (f : expr) (rt : list (name * name)) (rc : list (name * name * name)) (new : text) :=
   (d, self, f, rt, rc, new).
+(* the definition translated from useractions._prepare_formula_renames on this run, evaluated on the same inputs *)
+Require Import Grist.Lib.RenPrelude GristGen.Renames_gen.
+Fixpoint rc_get (l : list (name * name * name)) (t c : name) : option text :=
+  match l with [] => None | (t', c', n) :: r => if name_eqb t' t && name_eqb c' c then Some n else rc_get r t c end.
+Definition renames_get_of (rt : list (name * name)) (rc : list (name * name * name)) (t : name) (c : option name) :=
+  match c with Some cc => rc_get rc t cc | None => lookup_env t rt end.
+Definition gen_ok (old : text) (rep : list occ) rt rc (new : text) : bool :=
+  let k0 : colkey := ([75%Z], [48%Z]) in
+  match gen_prepare_formula_renames (renames_get_of rt rc) (fun _ => old)
+          (map (fun o : occ => (k0, fst (fst o), snd (fst o), snd o)) rep) with
+  | [] => name_eqb old new
+  | [(k, ROk t)] => colkey_eqb k k0 && name_eqb t new
+  | _ => false
+  end.
 '''
 
 
@@ -939,7 +974,7 @@ def correspond(ctx):
           t4.append('(cE %s %s %s %s %s %s)' % (schemas[sch], zl(tid), c16gen.coq(tree), rt, rcs, zl(new)))
           src4.append((tid, old, info['renames'], new))
   jobs.append(('renametext', 'fun c => match c with (old, rep, rt, rc, new) => '
-               'res_is (rename_text (rt_of rt) (rc_of rc) old rep) (Some new) end', t2, 400, EXTRA_DEFS,
+               'res_is (rename_text (rt_of rt) (rc_of rc) old rep) (Some new) && gen_ok old rep rt rc new end', t2, 400, EXTRA_DEFS,
                'correspondence:rename_text differs from _prepare_formula_renames', [repr(x) for x in src2]))
   jobs.append(('printer', 'fun c => name_eqb (pr_text (fst c)) (snd c)', t3, 400, EXTRA_DEFS,
                'correspondence:Coq pr differs from the harness printer', [x[:400] for x in t3]))
